@@ -56,6 +56,10 @@ let () =
       let line = input_line stdin in
       (try
         match split_ws line with
+        | "tdist" :: ids ->
+            let fs = test_distinct_run (fun a b -> a = b) [] (List.map int_of_string ids) in
+            print_endline ("fit=" ^ String.concat "|" (List.map (fun f -> String.concat "," (List.map hex_of_f64 f)) fs))
+        | ["tfixed"; _] -> print_endline (show_fit (test_fixed 0))
         | ["ga"; h] -> print_endline (show_fit (ga_eval (f64_of_hex h)))
         | ["con"; p; v] -> print_endline (show_fit (constrained_eval (f64_of_hex p) (ga_eval (f64_of_hex v))))
         | kind :: classes :: _n :: rest ->
